@@ -1,6 +1,7 @@
 CONSTANTS MaxSteps = 6
           Shape = "free"
-          SeedNames = {"num", "nan", "mixed", "ties"}
+          SeedNames = {"num", "nan", "mixed", "ties", "real"}
+          ErrOnly = {}
           Hist = TRUE
 INIT Init
 NEXT NextSim
